@@ -44,6 +44,15 @@ def command_key(command):
     return ("obj", id(command))
 
 
+def request_hex(command):
+    """the request bytes of a command as hex text when they are concrete (lets a native replay match the scripted
+    outcome to the request instead of to its position), else None"""
+    r = getattr(command, "request", None)
+    if isinstance(r, SBytes) and r.is_concrete():
+        r = bytes(r.to_bytes())
+    return r.hex() if isinstance(r, (bytes, bytearray)) else None
+
+
 def request_kind(ex, command):
     import contracts.inverter as ci
     return contracts.eval_spec_value(ex, ci.request_kind, [command])
@@ -152,7 +161,7 @@ def socket_result(ex, inv, command):
         return g.regs.answer(ex, inv, command, kind)
     n = payload_length(ex, command)
     resp, payload = make_framed_response(ex, command, n)
-    g.script.append({"kind": "return", "payload": payload})
+    g.script.append({"kind": "return", "payload": payload, "request": request_hex(command)})
     return resp
 
 
@@ -174,13 +183,15 @@ def socket_raised(ex, E, inv, command):
             ex.assume(g.refused[key])
         if g.regs is not None and not g.regs.may_refuse(ex, command, kind):
             ex.assume(False)
-        g.script.append({"kind": "raise", "cls": "RequestRejectedException", "message": msg})
+        g.script.append({"kind": "raise", "cls": "RequestRejectedException", "message": msg,
+                         "request": request_hex(command)})
         return ex.new_object(RequestRejectedException(msg))
     if E is RequestFailedException:
         if not g.allow_failures:
             ex.assume(False)
         e = ex.new_object(RequestFailedException("no valid response", ex.fresh_int("failures")))
-        g.script.append({"kind": "raise", "cls": "RequestFailedException", "message": "no valid response"})
+        g.script.append({"kind": "raise", "cls": "RequestFailedException", "message": "no valid response",
+                         "request": request_hex(command)})
         return e
     raise Unsupported(f"socket_raised {E}")
 
@@ -309,6 +320,13 @@ def new_inverter(ex, family, port=8899):
     from goodwe.es import ES
     cls = {"ET": ET, "DT": DT, "ES": ES}[family]
     inv = cls("host", port, 0, 1, 3)         # concrete construction by the real __init__ (ground evaluation)
+    sh = shared_ids(ex)
+    ex.new_object(inv)
+    ex.new_object(inv._protocol)
+    for v in vars(inv).values():
+        # containers created by __init__ belong to the object - unless they are reachable from the class or a module
+        if isinstance(v, (dict, list, set)) and id(v) not in sh:
+            ex.new_object(v)
     return inv
 
 
@@ -403,6 +421,7 @@ def et_device_info(ex):
     ok, why = et_inv(inv)
     ex.check("C15_invariant_established", ok, detail=why)
     only_reads(ex)
+    check_own_state_only(ex, inv)
 
 
 def et_runtime(ex, state):
@@ -417,6 +436,11 @@ def et_runtime(ex, state):
     # the refusal set of C15 ranges over the optional blocks; running data and the basic meter block are mandatory
     g.never_refused = {command_key(inv._READ_RUNNING_DATA), command_key(inv._READ_METER_DATA)}
     ex.inputs = {"family": "ET", "state_index": state, "script": g.script, "state": str(st)}
+    # histories: the caller may have asked for the sensor list before the first read (anything the object memoizes
+    # then must not outlive a capability change)
+    ex.inputs["sensors_first"] = bool(ex.choose(2, tag="sensors().called.first"))
+    if ex.inputs["sensors_first"]:
+        ex.call(inv.sensors, [], {})
     raised_first = False
     for call in (1, 2):
         try:
@@ -431,6 +455,8 @@ def et_runtime(ex, state):
             ok, why = et_inv(inv)
             ex.check("C15_invariant_preserved", ok, detail=why)
             continue
+        if call == 2:
+            ex.check("C15_succeeds_by_second_call", True)
         want = ids(ex.call(inv.sensors, [], {}))
         got = list(data.keys())
         ex.check("C15_keys_equal_sensors", sorted(set(got)) == sorted(set(want)),
@@ -475,6 +501,7 @@ def dt_device_info(ex):
     ok, why = dt_inv(inv)
     ex.check("C15_invariant_established", ok, detail=why)
     only_reads(ex)
+    check_own_state_only(ex, inv)
 
 
 def dt_runtime(ex, state):
@@ -487,6 +514,9 @@ def dt_runtime(ex, state):
     ex.setattr(inv, "_has_meter", meter)
     ghost(ex).never_refused = {command_key(inv._READ_RUNNING_DATA)}
     ex.inputs = {"family": "DT", "state_index": state, "script": ghost(ex).script, "state": str(combos[state])}
+    ex.inputs["sensors_first"] = bool(ex.choose(2, tag="sensors().called.first"))
+    if ex.inputs["sensors_first"]:
+        ex.call(inv.sensors, [], {})
     raised_first = False
     for call in (1, 2):
         try:
@@ -498,6 +528,8 @@ def dt_runtime(ex, state):
                 ex.check("C15_succeeds_by_second_call", not raised_first, detail="both calls raised")
             raised_first = True
             continue
+        if call == 2:
+            ex.check("C15_succeeds_by_second_call", True)
         want = ids(ex.call(inv.sensors, [], {}))
         got = list(data.keys())
         ex.check("C15_keys_equal_sensors", sorted(set(got)) == sorted(set(want)),
@@ -614,19 +646,19 @@ def settings_variants(ex, inv, family):
     if family == "ET":
         k = ex.choose(3, tag="settings.variant")
         if k >= 1:
-            inv._settings.update({s.id_: s for s in type(inv)._ET__settings_arm_fw_19})
+            ex.call(inv._settings.update, [{s.id_: s for s in type(inv)._ET__settings_arm_fw_19}], {})
         if k >= 2:
-            inv._settings.update({s.id_: s for s in type(inv)._ET__settings_arm_fw_22})
+            ex.call(inv._settings.update, [{s.id_: s for s in type(inv)._ET__settings_arm_fw_22}], {})
     elif family == "DT":
         k = ex.choose(3, tag="settings.variant")
         if k == 1:
-            inv._settings.update({s.id_: s for s in type(inv)._DT__settings_single_phase})
+            ex.call(inv._settings.update, [{s.id_: s for s in type(inv)._DT__settings_single_phase}], {})
         if k == 2:
-            inv._settings.update({s.id_: s for s in type(inv)._DT__settings_three_phase})
+            ex.call(inv._settings.update, [{s.id_: s for s in type(inv)._DT__settings_three_phase}], {})
     else:
         k = ex.choose(2, tag="settings.variant")
         if k == 1:
-            inv._settings.update({s.id_: s for s in type(inv)._ES__settings_arm_fw_14})
+            ex.call(inv._settings.update, [{s.id_: s for s in type(inv)._ES__settings_arm_fw_14}], {})
     return k
 
 
@@ -634,9 +666,7 @@ def readonly_call(ex, family, method):
     from goodwe.exceptions import InverterError
     install_hooks()
     ex.contracts = {k: v for k, v in ex.contracts.items() if not k.endswith(".read")}
-    inv = new_inverter(ex, family)
-    ex.new_object(inv)                      # fresh per path: the real constructor ran on this path
-    ex.new_object(inv._settings)
+    inv = new_inverter(ex, family)          # fresh per path: the real constructor ran on this path
     g = ghost(ex)
     g.allow_failures = True
     g.allow_other_rejections = True
@@ -673,6 +703,7 @@ def readonly_call(ex, family, method):
             ex.check("C09_only_documented_exceptions", isinstance(pr.exc, (InverterError, ValueError)),
                      detail=repr(pr.exc)[:200])
     only_reads(ex)
+    check_own_state_only(ex, inv)
 
 
 def invalid_setter(ex, family, case):
@@ -681,8 +712,6 @@ def invalid_setter(ex, family, case):
     from goodwe.inverter import OperationMode
     install_hooks()
     inv = new_inverter(ex, family)
-    ex.new_object(inv)
-    ex.new_object(inv._settings)
     g = ghost(ex)
     g.allow_failures = True
     g.allow_other_rejections = True
@@ -943,8 +972,6 @@ def write_setting_row(ex, family, index, port=8899):
     if kind is None:
         return
     inv = new_inverter(ex, family, port)
-    ex.new_object(inv)
-    ex.new_object(inv._settings)
     inv._settings[s.id_] = s
     ex.setattr(inv, "serial_number", ex.fresh_str("serial"))
     g = ghost(ex)
@@ -1033,8 +1060,6 @@ def conj_is(a, b):
 # ---- C19: setters round-trip with their getters against the register-file model ----------------------------------------------
 def _c19_inverter(ex, family, fw2, p745):
     inv = new_inverter(ex, family)
-    ex.new_object(inv)
-    ex.new_object(inv._settings)
     serial = ex.fresh_str("serial")
     ex.setattr(inv, "serial_number", serial)
     # platform predicate: decided by the serial number; fixed here through the tag facts the model predicates consult
@@ -1044,15 +1069,24 @@ def _c19_inverter(ex, family, fw2, p745):
         ex.assume(mk_bool(ex.str_facts[('substr', tag, serial.key)].t == z3.BoolVal(bool(p745) and tag == "ETT")))
     if family == "ET":
         if fw2:
-            inv._settings.update({s.id_: s for s in type(inv)._ET__settings_arm_fw_19})
+            ex.call(inv._settings.update, [{s.id_: s for s in type(inv)._ET__settings_arm_fw_19}], {})
         else:
             ex.setattr(inv, "_has_eco_mode_v2", False)
     else:
         if fw2:
-            inv._settings.update({s.id_: s for s in type(inv)._ES__settings_arm_fw_14})
+            ex.call(inv._settings.update, [{s.id_: s for s in type(inv)._ES__settings_arm_fw_14}], {})
         ex.setattr(inv, "arm_version", 14 if fw2 else ex.fresh_int("arm_version"))
         ex.setattr(inv, "dsp1_version", ex.fresh_int("dsp1_version"))
     return inv
+
+
+def _eco_onoff_reg(regs, family, fw2, k, initial=False):
+    """E3: register space and register whose high byte is the on/off byte of eco-mode group k"""
+    if fw2:
+        return (regs.mem0 if initial else regs.mem), 47547 + 6 * (k - 1) + 2
+    if family == "ET":
+        return (regs.mem0 if initial else regs.mem), 47515 + 4 * (k - 1) + 3
+    return (regs.aa0 if initial else regs.aa), 0x701 + 4 * (k - 1) + 3
 
 
 def operation_mode_roundtrip(ex, family, fw2, p745, mode_index):
@@ -1089,6 +1123,12 @@ def operation_mode_roundtrip(ex, family, fw2, p745, mode_index):
                 raise interp.Infeasible()
             raise
         ex.inputs["prior"] = prior_bytes
+    # ... and groups 2..4 hold decodable on/off bytes beforehand (v1: off 0 / on 0xFF; v2: 0..6 off, -1..-7 on, 85
+    # unset -- the values ScheduleType.detect_schedule_type accepts)
+    for k in (2, 3, 4):
+        space0, reg = _eco_onoff_reg(g.regs, family, fw2, k, initial=True)
+        hb0 = g.regs._word(ex, space0, zt(reg)) / 256
+        ex.assume(mk_bool(z3.Or(hb0 <= 6, hb0 >= 249, hb0 == 85)) if fw2 else mk_bool(z3.Or(hb0 == 0, hb0 == 255)))
     try:
         run_coro(ex, inv.set_operation_mode, m, p, s)
     except PyRaise as pr:
@@ -1121,6 +1161,13 @@ def operation_mode_roundtrip(ex, family, fw2, p745, mode_index):
             sw = run_coro(ex, inv.read_setting, f"eco_mode_{k}_switch") if family == "ET" else None
             if sw is not None:
                 ex.check("C19_other_groups_switched_off", ex.compare(ast.Eq(), sw, 0), detail=f"group {k}")
+            # the same, stated on the register file and independent of the settings table (E3: group k of eco-mode v1
+            # occupies 4 registers from 47515 / AA55 0x701, of v2 6 registers from 47547; the on/off byte is the high
+            # byte of the 4th resp. 3rd register; on = 0xFF for v1, -7..-1 for v2)
+            space, reg = _eco_onoff_reg(g.regs, family, fw2, k)
+            hb = g.regs._word(ex, space, zt(reg)) / 256
+            off = (hb < 249) if fw2 else (hb == 0)
+            ex.check("C19_other_groups_switched_off_in_the_register_file", mk_bool(off), detail=f"group {k}")
 
 
 def limit_roundtrip(ex, family, which):
@@ -1178,8 +1225,6 @@ def single_vs_bulk(ex, family, chunk, nchunks):
     mine = ids_all[chunk::nchunks]
     sid = mine[ex.choose(len(mine), tag="id")]
     inv = new_inverter(ex, family)
-    ex.new_object(inv)
-    ex.new_object(inv._settings)
     ex.setattr(inv, "serial_number", ex.fresh_str("serial"))
     if family == "ET":
         ex.setattr(inv, "_has_battery2", True)
@@ -1222,8 +1267,6 @@ def sensor_cache_history(ex, family):
     changes the capabilities, then every listed id must still be known to read_sensor"""
     install_hooks()
     inv = new_inverter(ex, family)
-    ex.new_object(inv)
-    ex.new_object(inv._settings)
     ex.setattr(inv, "serial_number", ex.fresh_str("serial"))
     g = ghost(ex)
     g.consistent_refusal = True
@@ -1232,6 +1275,10 @@ def sensor_cache_history(ex, family):
     if family == "ET":
         ex.setattr(inv, "_has_battery", bool(ex.choose(2, tag="battery.before")))
         ex.setattr(inv, "_has_mppt", bool(ex.choose(2, tag="mppt.before")))
+        lvl, e2, e1 = (("full", True, True), ("lt58", False, True), ("lt45", False, False))[ex.choose(3, tag="meter.level")]
+        ex.setattr(inv, "_sensors_meter", et_filters()[("meter", 0, lvl)])
+        ex.setattr(inv, "_has_meter_extended2", e2)
+        ex.setattr(inv, "_has_meter_extended", e1)
     else:
         ex.setattr(inv, "_has_meter", bool(ex.choose(2, tag="meter.before")))
     g.never_refused = {command_key(inv._READ_RUNNING_DATA)} | ({command_key(inv._READ_METER_DATA)} if family == "ET" else set())
@@ -1248,3 +1295,65 @@ def sensor_cache_history(ex, family):
     missing = [s.id_ for s in listed if ex.call(inv._get_sensor, [s.id_], {}) is None]
     ex.check("C16_every_listed_id_is_known_to_read_sensor_after_capability_change", not missing,
              detail=f"unknown to read_sensor: {missing[:6]}")
+    # ... and is looked up with the definition the bulk read reports (for an id listed twice the later row wins there)
+    last = {}
+    for srow in listed:
+        last[srow.id_] = srow
+    stale = [i for i, srow in last.items() if ex.call(inv._get_sensor, [i], {}) is not srow]
+    ex.check("C16_read_sensor_uses_the_definition_of_the_bulk_read_after_capability_change", not stale,
+             detail=f"read_sensor would decode another definition of: {stale[:6]}")
+
+
+# ---- C20 F3/F4: inverter methods modify only state owned by the object ------------------------------------------------------
+_SHARED = None
+
+
+def shared_ids(ex):
+    """ids of mutable objects reachable from module globals and class attributes of the package (shared by every
+    inverter object in the process)"""
+    global _SHARED
+    if _SHARED is not None:
+        return _SHARED
+    seen = {}
+
+    def walk(o, depth):
+        if depth > 3 or id(o) in seen:
+            return
+        if isinstance(o, (dict, list, set)):
+            seen[id(o)] = o
+            for x in (o.values() if isinstance(o, dict) else o):
+                walk(x, depth + 1)
+        elif isinstance(o, tuple):
+            for x in o:
+                walk(x, depth + 1)
+        elif type(o).__module__.startswith("goodwe") and hasattr(o, "__dict__") and not isinstance(o, type):
+            seen[id(o)] = o
+            for x in vars(o).values():
+                walk(x, depth + 1)
+    for modname, mod in ex.world.modules.items():
+        if not modname.startswith("goodwe"):
+            continue
+        for k, v in vars(mod).items():
+            if isinstance(v, type) and v.__module__.startswith("goodwe"):
+                for kk, vv in vars(v).items():
+                    walk(vv, 0)
+            elif not k.startswith("__") and not isinstance(v, type) and not callable(v):
+                walk(v, 0)
+    _SHARED = seen
+    return seen
+
+
+def check_own_state_only(ex, inv, name="C20_F3_F4_only_state_owned_by_the_object_is_modified"):
+    sh = shared_ids(ex)
+    bad = []
+    for obj, what in ex.writes:
+        if isinstance(obj, str):
+            if not (obj == "goodwe.protocol" and what == "_modbus_tcp_tx"):     # exempted by the property
+                bad.append(f"module global {obj}.{what}")
+        elif isinstance(obj, type):
+            bad.append(f"class attribute {obj.__name__}.{what}")
+        elif id(obj) in sh:
+            if type(obj).__name__ in ("EcoModeV1", "EcoModeV2", "Schedule", "PeakShavingMode"):
+                continue        # the known finding of C20 (rows units) - not reported twice
+            bad.append(f"{type(obj).__name__} shared through a class/module: {what}")
+    ex.check(name, not bad, detail="; ".join(bad[:4]))
